@@ -48,7 +48,15 @@ def module_calls(poly=False):
     c3 = f.call(g, c2[0])
     lf = f.load_function(g)
     ci = f.add_op(ops.CallIndirect(), lf, c3[0])
-    f.set_outputs(ci[0])
+    # a row-polymorphic function (forall r. r -> r) instantiated at rows of length 2 and 0: the instantiated
+    # arity differs from the polymorphic body's
+    rowp = m.declare_function("row<poly>.fn", tys.PolyFuncType([tys.ListParam(tys.TypeTypeParam(tys.TypeBound.Any))],
+                                                                tys.FunctionType([tys.RowVariable(0, tys.TypeBound.Any)], [tys.RowVariable(0, tys.TypeBound.Any)])))
+    r2 = f.call(rowp, ci[0], c1[0], instantiation=tys.FunctionType([B, B], [B, B]),
+                type_args=[tys.SequenceArg([tys.TypeTypeArg(B), tys.TypeTypeArg(B)])])
+    r0 = f.call(rowp, instantiation=tys.FunctionType([], []), type_args=[tys.SequenceArg([])])
+    f.add_state_order(r2, r0)
+    f.set_outputs(r2[1])
     return m
 
 
@@ -71,9 +79,10 @@ def module_nested(non_local=True):
                 case.set_outputs(*case.inputs())
     with f.add_tail_loop([b], [cond[0]]) as tl:
         bi, qq = tl.inputs()
-        brk = tl.add_op(ops.Tag(1, tys.Sum([[B], [B]])), bi)
+        brk = tl.add_op(ops.Tag(1, tys.Sum([[B], [B, B]])), bi, bi)    # just_outputs longer than just_inputs
         tl.set_loop_outputs(brk, qq)
-    f.set_outputs(tl[0], tl[1])
+    *_, last = tl                                                   # the linear value is the LAST loop output
+    f.set_outputs(tl[0], last)
     return m
 
 
@@ -110,7 +119,9 @@ def module_values():
     l1 = f.load(c)
     l2 = f.load(c)
     i = f.load(IntVal(3, 5))
-    f.set_outputs(l1, l2, i)
+    e = f.load(val.Sum(1, tys.Sum([[], []]), []))          # general sum whose rows are all empty
+    o = f.load(val.None_())                                # Option() : [[], []] as well
+    f.set_outputs(l1, l2, i, e, o)
     return m
 
 
@@ -144,7 +155,7 @@ MODULES = [module_simple, module_calls, module_nested, module_cfg, module_values
 def extension_small(name="ext.ünï", with_binary=False):
     e = ext.Extension(name, ext.Version(0, 2, 1), runtime_reqs={"prelude"})
     td = e.add_type_def(ext.TypeDef("T", "a type ✓", [tys.TypeTypeParam(tys.TypeBound.Any)], ext.FromParamsBound([0])))
-    e.add_type_def(ext.TypeDef("C", "copyable", [], ext.ExplicitBound(tys.TypeBound.Copyable)))
+    e.add_type_def(ext.TypeDef("C", "copyable", [tys.BoundedNatParam(None), tys.BoundedNatParam(7)], ext.ExplicitBound(tys.TypeBound.Copyable)))
     e.add_op_def(ext.OpDef("Op", ext.OpDefSig(tys.PolyFuncType([tys.TypeTypeParam(tys.TypeBound.Any)],
                                                                   tys.FunctionType([tys.Variable(0, tys.TypeBound.Any)], [td.instantiate([tys.Variable(0, tys.TypeBound.Any).type_arg()])]))),
                            "desc ✓", {"k": 1}))
